@@ -26,6 +26,11 @@ committed to.  Finally whole sessions are run with the real host and join
 binaries on this multi-address host (5 candidates); outcome, duration and the
 hook traces of both processes (validated with TLC against SessionTrace.tla:
 one winner, no swap of the primary after authentication) are judged.
+The TCP variant of the set-up (dumb-tcp mode: the sender announces the
+addresses of one TCP listener and commits to the first accepted connection,
+the receiver goes through the addresses) is bound the same way: real
+dialAddrs / acceptWithContext with one forwarder per address deciding which
+path reaches the listener first, plus whole --dumb-tcp sessions.
 """
 import os
 import vlib
@@ -60,7 +65,14 @@ def run(tier, seed):
     thru = vlib.build_repo_bin('./cmd/thru', 'thru')
     dial = vlib.run_vh_sharded(['connrace-dial', '-edges', ep, '-max-allfail', '0' if quick else '1', '-free', '12' if quick else '40'], 12, timeout=2400)
     acc = vlib.run_vh_sharded(['connrace-accept', '-edges', ep, '-thruserv', srv, '-thru', thru, '-max', '7' if quick else '0'], 8, timeout=3000)
-    res = vlib.merge_results([dial, acc])
+    # the TCP variant of the same set-up (dumb-tcp mode): the receiver's real dialAddrs against the sender's real
+    # acceptWithContext behind one forwarder per announced address (the driver decides which path reaches the listener
+    # first), and whole `--dumb-tcp` sessions with both real binaries
+    tcpd = vlib.run_vh_sharded(['dumbtcp-dial', '-rounds', '16' if quick else '160'], 4, timeout=900)
+    tcps = vlib.run_vh_sharded(['e2e-dumbtcp', '-n', '4' if quick else '24', '-thruserv', srv, '-thru', thru], 4, timeout=900)
+    for viol in tcps['violations']:
+        viol['sig'].pop('prop', None)
+    res = vlib.merge_results([dial, acc, tcpd, tcps])
     for viol in res['violations']:
         v.violation(viol['sig'], viol.get('replay'))
     # whole sessions with both real binaries on this multi-address host; traces validated against SessionTrace.tla
@@ -71,7 +83,9 @@ def run(tier, seed):
                       replay=dict(dial_schedules=dial['behaviours'], distinct_dial_projections=dial['distinct'],
                                   accept_scripts=acc['behaviours'], distinct_accept_scripts=acc['distinct'],
                                   dial_outcomes=dial['extra'].get('outcomes'), accept_outcomes=acc['extra'].get('outcomes'),
-                                  candidate_addresses=dial['extra'].get('candidate_ips')),
+                                  candidate_addresses=dial['extra'].get('candidate_ips'),
+                                  tcp_variant=dict(dial_rounds=tcpd['behaviours'], dial_outcomes=tcpd['extra'].get('outcomes'),
+                                                   dumb_tcp_sessions=tcps['behaviours'], session_outcomes=tcps['extra'].get('outcomes'))),
                       whole_sessions=dict(sessions=sess['res']['behaviours'], outcomes=sess['res']['extra'].get('outcomes'), trace_lines_validated=sess['lines']),
                       liveness=dict(property='Converges', states=rl['distinct']),
                       negative_controls_refuted=controls, samples=res['samples'][:8])
